@@ -403,6 +403,7 @@ pub fn run(args: &Args) {
     );
 
     size_sweep(&mut rep, args, &ev, &strict);
+    shared_node_containers(&mut rep, args);
     for i in 0..args.n {
         let mut rng = Rng::derive(args.seed, args.shard + 4000, i);
         match i % 4 {
@@ -421,7 +422,10 @@ pub fn run(args: &Args) {
 /// Built-ins over arrays, strings and objects of every size 0..=130 and around the powers of
 /// two up to 1024 (strategy switches at size thresholds), against the reference functions.
 fn size_sweep(rep: &mut Report, args: &Args, ev: &Evaluator, strict: &Opts) {
-    const EXPRS: [&str; 34] = [
+    const EXPRS: [&str; 42] = [
+        // the last / first element of a stable sort with ties (not the same element as max_by / min_by return)
+        "sort_by(recs, &k)[-1].id", "sort_by(recs, &k)[0].id", "sort_by(recs, &k) | [-1].id", "sort_by(recs, &s)[-1].id", "sort(saw)[-1]", "sort(strs)[0]", "sort_by(recs, &k)[-2:][*].id",
+        "reverse(sort_by(recs, &k))[0].id",
         "sort(desc)", "sort(saw)", "sort(strs)", "sort_by(recs, &k)[*].id", "sort_by(recs, &s)[*].id", "sort_by(recs, &id)[-1].id", "max_by(recs, &k).k", "min_by(recs, &k).k",
         "max_by(recs, &id).id", "min_by(recs, &s).s", "reverse(desc)", "reverse(str)", "sum(desc)", "avg(saw)", "max(saw)", "min(desc)", "max(strs)", "min(strs)", "length(desc)",
         "length(str)", "length(obj)", "join('-', strs)", "keys(obj)", "values(obj)", "merge(obj, obj2)", "map(&k, recs)", "map(&[id], recs)[-1]", "contains(desc, `0`)",
@@ -481,6 +485,35 @@ fn size_sweep(rep: &mut Report, args: &Args, ev: &Evaluator, strict: &Opts) {
                     json!({"expression": text, "size": n, "expected": shorten(format!("{:?}", want.as_ref().map(|v| v.to_string()).map_err(|e| e.class()))),
                            "got": shorten(format!("{:?}", got.map(|r| r.map(|v| v.to_string()).map_err(|e| e.to_string()))))}),
                 );
+            }
+        }
+    }
+}
+
+/// `contains` (and the equality behind it) on containers whose members are the very same nodes of the
+/// document under equal / different names and positions.
+fn shared_node_containers(rep: &mut Report, args: &Args) {
+    if args.shard != 0 {
+        return;
+    }
+    let doc = json!({"a": 5, "b": {"c": [1]}, "s": "x", "n": null});
+    for m in ["a", "b", "b.c", "s", "n"] {
+        for (text, want) in [
+            (format!("contains([{{p: {m}}}], {{q: {m}}})", m = m), false),
+            (format!("contains([{{p: {m}}}], {{p: {m}}})", m = m), true),
+            (format!("contains([[{m}]], [{m}])", m = m), true),
+            (format!("contains([[{m}, {m}]], [{m}])", m = m), false),
+            (format!("contains([{{p: {m}, q: a}}], {{p: a, q: {m}}})", m = m), m == "a"),
+            (format!("contains([{{p: {m}}}, {{q: {m}}}], {{q: {m}}})", m = m), true),
+            (format!("contains([{m}], {m})", m = m), true),
+        ] {
+            rep.evaluations += 1;
+            match guarded(|| jmespath::compile(&text).and_then(|e| e.search(rcvar_of(&doc)))) {
+                Ok(Ok(v)) if v.as_boolean() == Some(want) => rep.count("shared_node_containers_ok"),
+                other => rep.violation(
+                    "C02/wrong-value/fn=contains/shared-nodes",
+                    json!({"expression": text, "document": doc, "expected": want, "got": format!("{:?}", other.map(|r| r.map(|v| v.to_string()).map_err(|e| e.to_string())))}),
+                ),
             }
         }
     }
